@@ -121,6 +121,8 @@ pub struct Sim {
     /// the stored proof is the unaltered answer to a well-formed request
     pub proof_honest: bool,
     pub proof_writer_len: u64,
+    /// which core the next `readfiles` line describes
+    pub readfiles_of: String,
     pub h: BTreeMap<String, Handle>,
     pub failures: Vec<Failure>,
     pub line: usize,
@@ -147,11 +149,11 @@ fn events_to_strings(evs: Vec<Event>) -> Vec<String> {
 }
 
 impl Sim {
-    pub fn new() -> Self { Sim { proof: None, proof_honest: false, proof_writer_len: 0, h: BTreeMap::new(), failures: vec![], line: 0, history: vec![], stats: BTreeMap::new(), check_oracle: true } }
+    pub fn new() -> Self { Sim { proof: None, proof_honest: false, proof_writer_len: 0, readfiles_of: String::new(), h: BTreeMap::new(), failures: vec![], line: 0, history: vec![], stats: BTreeMap::new(), check_oracle: true } }
     fn fail(&mut self, key: &str, detail: String) {
         *self.stats.entry("oracle_failures".into()).or_insert(0) += 1;
         if self.failures.len() < 200 {
-            let hist = self.history.iter().rev().take(40).rev().cloned().collect::<Vec<_>>().join(" ; ");
+            let hist = self.history.iter().rev().take(40).rev().map(|l| if l.len() > 700 { format!("{}…[{} chars]", &l[..700], l.len()) } else { l.clone() }).collect::<Vec<_>>().join(" ; ");
             self.failures.push(Failure { key: key.to_string(), detail: format!("{detail} || history: {hist}"), line: self.line });
         }
     }
@@ -514,6 +516,34 @@ impl Sim {
                 for (k, d) in fails { self.fail(k, d); }
                 self.bump("op_reftree");
                 format!("ok len={} filenodes={} roots={} sig={} proofnodes={} ref={:016x}", len, filenodes, roots.len(), sig, proofnodes, fnv_bytes(&digest))
+            }
+            ["sha", name] => {
+                let Some(h) = self.h.get_mut(*name) else { return "nocore".into() };
+                let f = backend::dump_files(&h.world);
+                use sha2::Digest;
+                let hs = |v: &Vec<u8>| if v.is_empty() { "NONE".to_string() } else { sha2::Sha256::digest(v).iter().map(|b| format!("{:02X}", b)).collect::<String>() };
+                format!("bitfield={} data={} oplog={} tree={}", hs(&f[2]), hs(&f[1]), hs(&f[3]), hs(&f[0]))
+            }
+            ["openfiles", name, t, d, b, o] => {
+                let files: Files = [unhex(t), unhex(d), unhex(b), unhex(o)];
+                let world = new_world(files);
+                let r = Self::open_core(&world, None);
+                let (core, out) = match r { Ok(c) => (Some(c), "ok".to_string()), Err(e) => (None, if e.starts_with("err") { "err".to_string() } else { "panic".to_string() }) };
+                let mut h = Handle { world, core, seed: None, writer: name.to_string(), oracle: Oracle { exists: true, ..Default::default() }, prev_files: Default::default(), prev_oracle: Default::default(), last_journal: vec![], subs: vec![], announced: BTreeSet::new(), became: BTreeSet::new(), sub_since_start: false };
+                let j = Self::take_journal(&mut h);
+                self.h.insert(name.to_string(), h);
+                format!("{out} j={}", jfmt(&j))
+            }
+            ["readfiles", ..] => {
+                // the implementation's side of `readfiles` is what the API of the live core reports
+                let name = self.readfiles_of.clone();
+                let Some(h) = self.h.get_mut(&name) else { return "nocore".into() };
+                let Some(core) = h.core.as_mut() else { return "nocore".into() };
+                let idx = probe_indices(core.info().length);
+                let s = Self::probe_core(core, &idx);
+                Self::drain(h);
+                self.bump("op_readfiles");
+                if s.len() > 600 { format!("{} ## {:016x}", s.split(" ::").next().unwrap(), fnv(&s)) } else { s }
             }
             ["dumpz", name] => {
                 // as `dump`, but without trailing zero bytes (a zero-length write past the end extends
